@@ -10,7 +10,13 @@ import (
 	"strings"
 )
 
+type tlField struct {
+	Name string
+	Expr string
+}
+
 type tlDecl struct {
+	Fields      []tlField
 	Name        string
 	Tag         string // lower-case hex without '#', "" when implicit
 	Annotations []string
@@ -98,7 +104,65 @@ func scanTL1(path string) ([]tlDecl, error) {
 				d.IsFunction = true
 			}
 		}
+		d.Fields = scanFields(st)
 		out = append(out, d)
 	}
 	return out, nil
+}
+
+// splitTop splits on white space outside of (), [], {} and <>.
+func splitTop(s string) []string {
+	var out []string
+	depth := 0
+	cur := strings.Builder{}
+	flush := func() {
+		if cur.Len() > 0 {
+			out = append(out, cur.String())
+			cur.Reset()
+		}
+	}
+	for _, ch := range s {
+		switch ch {
+		case '(', '[', '{', '<':
+			depth++
+		case ')', ']', '}', '>':
+			if depth > 0 {
+				depth--
+			}
+		}
+		if depth == 0 && (ch == ' ' || ch == '\t' || ch == '\n' || ch == '\r') {
+			flush()
+			continue
+		}
+		cur.WriteRune(ch)
+	}
+	flush()
+	return out
+}
+
+// scanFields returns the named fields `name:expr` of a TL1 combinator statement (left of `=` / `=>`).
+func scanFields(st string) []tlField {
+	st = strings.ReplaceAll(st, "=>", " => ")
+	var out []tlField
+	toks := splitTop(st)
+	seenName := false
+	for _, t := range toks {
+		if strings.HasPrefix(t, "@") || strings.HasPrefix(t, "---") {
+			continue
+		}
+		if t == "=" || t == "=>" {
+			break
+		}
+		if !seenName {
+			seenName = true
+			continue
+		}
+		if strings.HasPrefix(t, "{") {
+			continue // template parameter
+		}
+		if i := strings.IndexByte(t, ':'); i > 0 && !strings.ContainsAny(t[:i], "([<") {
+			out = append(out, tlField{Name: t[:i], Expr: t[i+1:]})
+		}
+	}
+	return out
 }
